@@ -316,6 +316,15 @@ func vfC08Limits(res *vfResult, p *vfPair, id string) {
 		if q > maxAppDataPacketQueueSize {
 			res.Violate("C08:limit:encryptedPackets", fmt.Sprintf("%d queued future-epoch packets > limit %d", q, maxAppDataPacketQueueSize), map[string]any{"case": id})
 		}
+		// per-epoch replay windows: one per epoch the connection has really used, never one per epoch number a
+		// datagram merely claims (in-package read at a quiescent point)
+		s.Conn.lock.Lock()
+		nd := len(vfCommon(s.Conn).ReplayDetector)
+		s.Conn.lock.Unlock()
+		res.Max("max_replay_detectors", int64(nd))
+		if nd > 64 {
+			res.Violate("C08:limit:replayDetectors", fmt.Sprintf("%d per-epoch replay detectors are allocated on one connection", nd), map[string]any{"case": id})
+		}
 		ts, tc, _, af, ab := s.Conn.fragmentBuffer.VFStats()
 		res.Max("max_fragment_buffer_bytes", int64(ab))
 		res.Max("max_fragment_buffer_fragments", int64(af))
